@@ -52,7 +52,8 @@ Inductive pcase :=
 | PItemSame (b : pbytes)
 | PStream (ty : int) (b : pbytes) (r : option (pbytes * int))
 | PRej (ty : int) (stream : bool) (b : pbytes) (cls : bool)
-| PEncR (ty : int) (v : pvalue) (b : pbytes).
+| PEncR (ty : int) (v : pvalue) (b : pbytes)
+| PHash (ty : int) (b : pbytes) (p : pbytes).
 
 Definition unpack_case (c : pcase) : case :=
   match c with
@@ -65,6 +66,7 @@ Definition unpack_case (c : pcase) : case :=
     CStream (n_of_int ty) (unpack b) (option_map (fun p => (unpack (fst p), n_of_int (snd p))) r)
   | PRej ty stream b cls => CRej (n_of_int ty) stream (unpack b) cls
   | PEncR ty v b => CEncR (n_of_int ty) (unpack_value v) (unpack b)
+  | PHash ty b p => CHash (n_of_int ty) (unpack b) (unpack p)
   end.
 
 Definition pmismatches (t : table) (l : list pcase) : list N :=
